@@ -200,9 +200,10 @@ func hasLoneCR(content []byte) bool {
 }
 
 // aliasExpansion: number of nodes of the tree unfolding of the alias graph (what relaxed mode walks: parseNode and
-// unpackNodes re-expand every alias), memoised and saturating.  Class predicate of the open known finding
-// C02-alias-fanout: the unfolding exceeds aliasFanoutLimit nodes (`aN: &aN [*aN-1, *aN-1]` doubles it per level).
-const aliasFanoutLimit = 20_000_000
+// unpackNodes re-expand every alias), memoised and saturating (`aN: &aN [*aN-1, *aN-1]` doubles it per level).
+// Since fix 2108dfa a document above aliasExpansionLimit must be refused with a parse error in both modes (former known
+// finding C02-alias-fanout: relaxed mode walked the unfolding for minutes).
+const aliasExpansionLimit = 1_000_000
 
 func aliasExpansion(docs []parser.VerifDoc) int {
 	memo := map[*yaml.Node]int{}
@@ -325,6 +326,11 @@ func runC02One(args []string) int {
 			for _, w := range res.lineViolations(nl) {
 				addFail("in-process: "+w, v.String(), !v.Strict, res.Problems)
 			}
+			if !hasAliasCycle(lastDocs) && aliasExpansion(lastDocs) > 2*aliasExpansionLimit {
+				if len(res.Entries) != 1 || !res.Entries[0].PathErrOK {
+					addFail("a document whose aliases unfold to more than a million nodes was not refused with a parse error", v.String(), !v.Strict, res.Problems)
+				}
+			}
 			for _, p := range res.Problems {
 				if len(expandPairs) < 4 {
 					expandPairs = append(expandPairs, [2]int{p.First, p.Last})
@@ -410,7 +416,13 @@ func runC02(args []string) int {
 	gv := newDocGen(r, 0)
 	gb := newDocGen(r, 0.3)
 	for len(items) < n {
-		switch r.Intn(6) {
+		switch r.Intn(7) {
+		case 6:
+			// rule lists with many per-field defects inside a scalar of an outer document (YAML in YAML): the error paths of
+			// parseRule with a line offset
+			list := seqLines(gb.ruleItems(1+r.Intn(4), false), 0)
+			w := gb.wrapOpts(list, r.Intn(3), false)
+			items = append(items, item{gb.embed(w.Text).Text, "embedded-defects"})
 		case 0:
 			items = append(items, item{gv.ruleFile(), "generated-valid"})
 		case 1, 2:
@@ -480,21 +492,6 @@ func runC02(args []string) int {
 				of.Known = "C02-lone-cr"
 			}
 			o.fails = append(o.fails, of)
-		}
-		if !cyc && aliasExpansion(docs) > aliasFanoutLimit {
-			// known finding C02-alias-fanout: relaxed mode walks the exponential unfolding.  Do not burn minutes: one run
-			// of the real binary in relaxed mode under a short timeout shows the (practical) hang; nothing else is run.
-			o.hist = append(o.hist, "has:alias-fanout", "class:"+it.class)
-			cfg := writeBinConfig(workDir, false, parser.PrometheusSchema, model.UTF8Validation)
-			rc, _, _ := runCmd(workDir, 4*time.Second, nil, os.Getenv("PINT_BIN"), "-c", cfg, "--offline", "-l", "error", "lint", file)
-			if rc == -1 {
-				of := oracleFail{ID: fmt.Sprint(id), What: "binary: pint (relaxed mode) still running after 4 s on a 29-line file whose aliases unfold to more than 20 million nodes (hang)",
-					Case: map[string]any{"content": it.content, "class": it.class, "lines": nl}, Known: "C02-alias-fanout"}
-				o.fails = append(o.fails, of)
-			}
-			os.Remove(file)
-			results[i] = o
-			return
 		}
 		// (a)+(b): correspondence term and in-process pipeline, in a child process
 		rc, so, se := runCmd(workDir, 150*time.Second, nil, self, "C02-one", "--file", file, "--id", fmt.Sprint(id), "--names", fmt.Sprint(int(names)), "--schema", fmt.Sprint(int(schema)))
